@@ -15,10 +15,10 @@ from check import Result  # noqa: E402
 # call-history properties over the IR state machine (C01 C02 C14, later C10 C19)
 #   runs: (module, scope, depth) per tier
 IR_RUNS = {
-    "C01": {"quick": [("MC", "conn", 2), ("MC", "contain", 3), ("MC", "body", 2)],
-            "thorough": [("MC", "conn", 3), ("MC", "contain", 4), ("MC", "body", 3), ("MC", "mirror", 2)]},
-    "C02": {"quick": [("MC", "mirror", 1), ("MC", "mirror_add", 2), ("MC", "conn", 2)],
-            "thorough": [("MC", "mirror", 2), ("MC", "mirror_add", 3), ("MC", "conn", 3)]},
+    "C01": {"quick": [("MC", "conn", 2), ("MC", "contain", 3), ("MC", "body", 2), ("SUITE", "tests", 0)],
+            "thorough": [("MC", "conn", 3), ("MC", "contain", 4), ("MC", "body", 3), ("MC", "mirror", 2), ("SUITE", "tests", 0)]},
+    "C02": {"quick": [("MC", "mirror", 1), ("MC", "mirror_add", 2), ("MC", "conn", 2), ("SUITE", "tests", 0)],
+            "thorough": [("MC", "mirror", 2), ("MC", "mirror_add", 3), ("MC", "conn", 3), ("SUITE", "tests", 0)]},
     "C14": {"quick": [("MC", "conn", 2), ("MC", "mirror", 1), ("MC", "mirror_add", 2), ("MC", "naming", 2),
                       ("MC", "naming_edif", 2)],
             "thorough": [("MC", "conn", 3), ("MC", "mirror", 2), ("MC", "mirror_add", 3), ("MC", "body", 3), ("MC", "contain", 4),
@@ -263,7 +263,9 @@ def ir_history(pid, tier, seed, replay=None, runs=None, strict=True):
     try:
         if replay is not None:
             rp = replay["replay"]
-            if rp.get("chain"):
+            if rp.get("module") == "SUITE":
+                jobs = [("SUITE", "tests", 0, None, None, [rp["test"]])]
+            elif rp.get("chain"):
                 jobs = [(rp.get("module", "MC"), rp.get("scope", "replay"), 0, {"walk": True, "walkq": True,
                          "distinct": 0, "states": 0, "lookup": rp.get("lookup", [])}, rp["init"],
                          [(rp["hist"] + ([rp["call"]] if rp.get("call") else []), [])])]
@@ -274,6 +276,9 @@ def ir_history(pid, tier, seed, replay=None, runs=None, strict=True):
             jobs = []
             for run in runs:
                 module, scope, depth = run[:3]
+                if module == "SUITE":
+                    jobs.append(("SUITE", scope, 0, None, None, None))
+                    continue
                 sim = run[3] if len(run) > 3 else None
                 gen, init, groups = irflow.generate(scope, depth, module=module, sim=sim, seed=seed)
                 if sim:
@@ -288,16 +293,30 @@ def ir_history(pid, tier, seed, replay=None, runs=None, strict=True):
         for module, scope, depth, gen, init, groups in jobs:
             d = os.path.join(out, scope + str(depth))
             scope = scope.replace("~sim", "")
-            shards, stats = irflow.replay(init, groups, d, lookup=(gen or {}).get("lookup", rp.get("lookup", []) if replay else []),
-                                          listeners=IR_LISTENERS.get(pid, ""),
-                                          chain=("observe" if gen and gen.get("walkq") else bool(gen and gen.get("walk"))))
-            tot = {k: sum(s[k] for s in stats) for k in
-                   ("groups", "calls", "ok", "refused", "changed_refused", "unbuildable", "records",
-                    "nontrivial_refused", "announcements", "transparency_compared")}
+            if module == "SUITE":
+                # the repository's own tests, recorded through the guarded hook (conform/suiteflow.py)
+                import suiteflow
+                rec_path, summary = suiteflow.record(d, select=groups)
+                shards, tot = suiteflow.shard(rec_path, d)
+                os.remove(rec_path)
+                stats = []
+                cov["exhaustive"] = False
+                cov.setdefault("suite", {})["pytest_summary"] = summary
+                if not shards:
+                    res.machinery.append("recording the repository's tests produced no trace: %s" % summary)
+                    continue
+            else:
+                shards, stats = irflow.replay(init, groups, d, lookup=(gen or {}).get("lookup", rp.get("lookup", []) if replay else []),
+                                              listeners=IR_LISTENERS.get(pid, ""),
+                                              chain=("observe" if gen and gen.get("walkq") else bool(gen and gen.get("walk"))))
+            if module != "SUITE":
+                tot = {k: sum(s[k] for s in stats) for k in
+                       ("groups", "calls", "ok", "refused", "changed_refused", "unbuildable", "records",
+                        "nontrivial_refused", "announcements", "transparency_compared")}
             for s in stats:
                 res.machinery.extend(s["harness_errors"][:3])
             val = irflow.validate(shards, strict=strict,
-                                  module="Trace" if module == "MC" else module.replace("MC", "Trace"))
+                                  module="Trace" if module in ("MC", "SUITE") else module.replace("MC", "Trace"))
             nd = 0
             for v in val:
                 if v["errors"] or not v["complete"]:
@@ -314,7 +333,7 @@ def ir_history(pid, tier, seed, replay=None, runs=None, strict=True):
                         "clause": clause, "signature": sig,
                         "summary": "after %d calls: %s -> %s" % (len(hist), json.dumps(rec.get("call"))[:300],
                                                                   rec.get("out")),
-                        "replay": {"module": module, "scope": scope, "init": init, "lookup": (gen or {}).get("lookup", []),
+                        "replay": {"module": module, "scope": scope, "init": init, "test": header.get("seg", ""), "lookup": (gen or {}).get("lookup", []),
                                    "hist": hist, "chain": bool(gen and gen.get("walk")) or bool(replay and rp.get("chain")),
                                    "call": rec.get("call"), "observed_out": rec.get("out"),
                                    "exception": rec.get("exc"), "pre": prerec.get("state", "see history"),
@@ -343,7 +362,10 @@ def ir_history(pid, tier, seed, replay=None, runs=None, strict=True):
                                   "model_distinct_states": gen["distinct"] if gen else 0,
                                   "model_transitions": gen["states"] if gen else 0,
                                   "impl": tot, "drift": nd})
-            if groups and len(cov["samples"]) < 4:
+            if module == "SUITE":
+                cov["suite"].update({k: tot[k] for k in ("segments", "segments_cut", "segments_excluded", "resets_unobserved",
+                                                         "calls_in_vocabulary")})
+            elif groups and len(cov["samples"]) < 4:
                 g = groups[len(groups) // 2]
                 cov["samples"].append({"scope": scope, "history": g[0], "candidate_calls_tried_there": len(g[1]),
                                        "first_candidates": g[1][:3]})
